@@ -53,9 +53,10 @@ def check_find_terminal(rep):
             p = eng.path
             p.gstart = SV(z3.BitVec('gstart', W), 0, 65535)
             p.gend = SV(z3.BitVec('gend', W), 1, 65536)
-            p.start = SV(z3.BitVec('start', W), 0, 65535)
+            p.start = SV(z3.BitVec('start', W), 0, 65536)
             p.end = SV(z3.BitVec('end', W), 0, 65536)
-            pre = [p.gstart.t >= 0, p.gstart.t < p.gend.t, p.gend.t <= 65536, p.start.t >= p.gstart.t, p.start.t <= 65535,
+            # start == 65536 only together with start >= end (a block that ends at the top of memory: the call does nothing)
+            pre = [p.gstart.t >= 0, p.gstart.t < p.gend.t, p.gend.t <= 65536, p.start.t >= p.gstart.t, z3.Or(p.start.t <= 65535, p.start.t >= p.end.t), p.start.t <= 65536,
                    p.end.t <= p.gend.t, p.end.t >= 0, p.start.t >= 0]
             if mode is None:
                 pre.append(p.start.t > p.gstart.t)
@@ -397,7 +398,7 @@ def run(tier):
     rep.trust('pyvc (havoc/invariant loops, unknown-value abstraction), z3; CPython for the bounded generator runs')
     rep.assume('decode() contract (first address == start, 1 <= size <= 4, consecutive addresses, all in [start, end)) is proved here for rst_handler=None (props/decodevc.py); RST-argument handling is not under VC')
     rep.assume('Disassembly returns addresses within the requested range: assumed here, observed in the bounded runs (_get_text_blocks: proved, props/c14text.py; read_map block building: proved, props/c14map.py)')
-    rep.assume('steps (3)-(7) of _generate_ctls_with_code_map mutate ctls with keys taken from ctls itself or from the above functions: not under VC, bounded only (the three dictionary phases of _generate_ctls_without_code_map are under VC, props/c14dict.py); termination of the fix-point loops is only observed')
+    rep.assume('termination of the fix-point loops of both generators is only observed')
     from props import decodevc
     decodevc.check_decode(rep, 'C14')
     check_find_terminal(rep)
@@ -406,6 +407,8 @@ def run(tier):
     c14map.check_read_map(rep, 'C14')             # code-map blocks: increasing, disjoint, every map address inside a block
     c14text.check_text_scanners(rep, 'C14')       # _check_text / _get_text_blocks: blocks inside the requested range
     c14dict.check_dict_phases(rep, 'C14')         # zero-block / join / text phases keep {start, end} and the 'i' at end
+    c14dict.check_code_map_steps(rep, 'C14')      # steps (1), (2), (4), (6), (7) of the code-map generator: same discipline + call-site preconditions
+    c14dict.check_get_blocks(rep, 'C14')
     quick = tier == 'quick'
     n = 400 if quick else 12000
     with Pool(common.NCPU) as p:
